@@ -3,7 +3,9 @@
 //! what `$VAR` expands to, which document time limit is in effect) and on the effective
 //! configuration that `-r json` prints for failing tests. Documents may include other documents
 //! (front-matter `prepend:` / `append:`, command line `-P` / `-A`): the command-line layer holds for
-//! the included tests exactly as for the document's own tests.
+//! the included tests exactly as for the document's own tests. `scrut create` is probed as well: the
+//! stream(s) and the CR LF handling recorded in the created document follow the command-line flag when
+//! one is given, the default of the output format otherwise.
 
 use std::collections::BTreeMap;
 use std::time::Duration;
@@ -80,6 +82,9 @@ pub struct Include {
 
 #[derive(Clone, Debug, Serialize, Deserialize)]
 pub struct Case {
+    /// "" = `scrut test` on generated documents; "create" = `scrut create` (uses format, cli_combine, cli_crlf only)
+    #[serde(default)]
+    pub mode: String,
     /// md | cram
     pub format: String,
     pub cram_compat: bool,
@@ -127,6 +132,87 @@ fn first_set<'a>(layers: &[&'a str]) -> &'a str {
     layers.iter().find(|s| !s.is_empty()).copied().unwrap_or("")
 }
 
+/// `scrut create [--format F] [flags] -- <command>`: the created document is written to stdout; its
+/// expectation lines show which stream(s) were recorded and whether CR LF survived
+fn check_create(env: &Env, case: &Case) -> Checked {
+    let md = case.format == "md";
+    let sb = Sandbox::new(env, "c16e");
+    let command = "echo MARK-OUT; echo MARK-ERR >&2; printf 'x\\r\\n'";
+    let mut c = ScrutCmd::new(&sb, &["create", "--format", if md { "markdown" } else { "cram" }]);
+    match case.cli_combine.as_str() {
+        "combine" => c = c.arg("--combine-output"),
+        "no-combine" => c = c.arg("--no-combine-output"),
+        _ => {}
+    }
+    match case.cli_crlf.as_str() {
+        "keep" => c = c.arg("--keep-output-crlf"),
+        "no-keep" => c = c.arg("--no-keep-output-crlf"),
+        _ => {}
+    }
+    let run = c.arg("--output").arg("-").arg("--").arg(command).watchdog(Duration::from_secs(60)).run(env);
+    if run.watchdog_fired {
+        return Checked::inconclusive("watchdog");
+    }
+    let doc = run.stdout_str();
+    let ctx = |what: String| format!("{what}\nscrut create --format {} {:?} {:?} -- {command}\n--- created document ---\n{doc}", case.format, case.cli_combine, case.cli_crlf);
+    if run.code != Some(0) {
+        return Checked::inconclusive(ctx(format!("scrut create exits with {:?}: {}", run.code, run.stderr_str().lines().take(4).collect::<Vec<_>>().join(" | "))));
+    }
+    // expectation lines: what follows the command line, up to the end of the block
+    let (cmd_prefix, indent) = if md { ("$ ", "") } else { ("  $ ", "  ") };
+    let mut lines = doc.lines().skip_while(|l| !l.starts_with(cmd_prefix)).skip(1);
+    let mut exps: Vec<&str> = vec![];
+    for l in &mut lines {
+        if md && l.starts_with("```") {
+            break;
+        }
+        if let Some(e) = l.strip_prefix(indent) {
+            exps.push(e);
+        }
+    }
+    if !exps.iter().any(|e| *e == "MARK-OUT") {
+        return Checked::inconclusive(ctx("the created document lacks the stdout marker among its expectations".into()));
+    }
+    let cli_stream = match case.cli_combine.as_str() {
+        "combine" => "combined",
+        "no-combine" => "stdout",
+        _ => "",
+    };
+    let cli_crlf = match case.cli_crlf.as_str() {
+        "keep" => "true",
+        "no-keep" => "false",
+        _ => "",
+    };
+    let eff_stream = first_set(&[cli_stream, if md { "stdout" } else { "combined" }]);
+    let eff_crlf = first_set(&[cli_crlf, if md { "false" } else { "true" }]);
+    let merged = exps.iter().any(|e| *e == "MARK-ERR");
+    if merged != (eff_stream == "combined") {
+        return Checked::violated(
+            format!("C16/e2e/create/output_stream//set-by={}/{}", if cli_stream.is_empty() { "" } else { "C" }, case.format),
+            ctx(format!("effective output_stream should be {eff_stream} (cli={cli_stream:?}, format default otherwise), but the stderr marker is {}among the recorded expectations", if merged { "" } else { "not " })),
+        );
+    }
+    let kept = exps.iter().any(|e| e.starts_with("x\\r"));
+    let translated = exps.iter().any(|e| *e == "x");
+    if kept == translated {
+        return Checked::inconclusive(ctx("cannot tell from the created document whether CR LF was kept".into()));
+    }
+    if kept != (eff_crlf == "true") {
+        return Checked::violated(
+            format!("C16/e2e/create/keep_crlf//set-by={}/{}", if cli_crlf.is_empty() { "" } else { "C" }, case.format),
+            ctx(format!("effective keep_crlf should be {eff_crlf} (cli={cli_crlf:?}, format default otherwise), but CR LF was {}", if kept { "kept" } else { "translated" })),
+        );
+    }
+    let flag = |s: &str, none: &str| if s.is_empty() { none.to_string() } else { s.to_string() };
+    let fs = flag(&case.cli_combine, "stream-default");
+    let fc = flag(&case.cli_crlf, "crlf-default");
+    Checked::held()
+        .bucket("e2e:create:judged")
+        .bucket(format!("e2e:create:{}:{fs}", case.format))
+        .bucket(format!("e2e:create:{}:{fc}", case.format))
+        .shape(!cli_stream.is_empty() || !cli_crlf.is_empty(), hash_str(&format!("create|{}|{fs}|{fc}", case.format)))
+}
+
 impl Monitor for C16e {
     type Case = Case;
 
@@ -136,8 +222,8 @@ impl Monitor for C16e {
 
     fn plan(&self, tier: Tier) -> Plan {
         let mut p = Plan::new(
-            tier.pick(200, 5000),
-            "e2e: Markdown (with and without --cram-compat) and Cram documents; command line flags {--combine-output, --no-combine-output, --keep-output-crlf, --no-keep-output-crlf, --timeout-seconds}, front-matter defaults and total_timeout, inline configuration per test, documents included through front-matter prepend/append and through -P/-A (with their own front-matter defaults and inline configuration) whose tests are probed like the document's own, each key independently unset or set per layer, environment variables VA/VB/VC set in overlapping layers; every test prints its variables, writes O to stdout, E to stderr and a CR LF line and fails on purpose so that -r json shows the recorded output and the effective configuration; non-trivial = some key is set in >= 2 layers; distinct = per key the set of layers that set it x format",
+            tier.pick(250, 6250),
+            "e2e: Markdown (with and without --cram-compat) and Cram documents; command line flags {--combine-output, --no-combine-output, --keep-output-crlf, --no-keep-output-crlf, --timeout-seconds}, front-matter defaults and total_timeout, inline configuration per test, documents included through front-matter prepend/append and through -P/-A (with their own front-matter defaults and inline configuration) whose tests are probed like the document's own, each key independently unset or set per layer; every fifth case runs `scrut create` for output format x {--combine-output, --no-combine-output, none} x {--keep-output-crlf, --no-keep-output-crlf, none} (enumerated) and reads the created document; environment variables VA/VB/VC set in overlapping layers; every test prints its variables, writes O to stdout, E to stderr and a CR LF line and fails on purpose so that -r json shows the recorded output and the effective configuration; non-trivial = some key is set in >= 2 layers; distinct = per key the set of layers that set it x format",
         );
         p.chunk = 2;
         p.case_timeout_s = 120;
@@ -148,6 +234,15 @@ impl Monitor for C16e {
             ("e2e:included-tests-judged".into(), tier.pick(40, 1000)),
             ("e2e:included:output_stream:cli-set".into(), tier.pick(20, 500)),
             ("e2e:included:keep_crlf:cli-set".into(), tier.pick(20, 500)),
+            ("e2e:create:judged".into(), tier.pick(10, 250)),
+            ("e2e:create:md:combine".into(), tier.pick(1, 30)),
+            ("e2e:create:md:no-combine".into(), tier.pick(1, 30)),
+            ("e2e:create:md:keep".into(), tier.pick(1, 30)),
+            ("e2e:create:md:no-keep".into(), tier.pick(1, 30)),
+            ("e2e:create:cram:combine".into(), tier.pick(1, 30)),
+            ("e2e:create:cram:no-combine".into(), tier.pick(1, 30)),
+            ("e2e:create:cram:keep".into(), tier.pick(1, 30)),
+            ("e2e:create:cram:no-keep".into(), tier.pick(1, 30)),
             ("e2e:included-prepend-doc".into(), tier.pick(6, 150)),
             ("e2e:included-append-doc".into(), tier.pick(6, 150)),
             ("e2e:included-prepend-cli".into(), tier.pick(6, 150)),
@@ -156,7 +251,23 @@ impl Monitor for C16e {
         p
     }
 
-    fn gen(&self, _env: &Env, _k: u64, rng: &mut Rng) -> Case {
+    fn gen(&self, _env: &Env, k: u64, rng: &mut Rng) -> Case {
+        if k % 5 == 0 {
+            // `scrut create`: the 2 x 3 x 3 combinations are enumerated, not drawn
+            let i = k / 5;
+            return Case {
+                mode: "create".into(),
+                format: ["md", "cram"][(i % 2) as usize].into(),
+                cram_compat: false,
+                cli_combine: ["combine", "no-combine", ""][((i / 2) % 3) as usize].into(),
+                cli_crlf: ["keep", "no-keep", ""][((i / 6) % 3) as usize].into(),
+                cli_timeout_s: None,
+                doc_timeout_s: None,
+                defaults: Layer::default(),
+                tests: vec![],
+                includes: vec![],
+            };
+        }
         let format = if rng.chance(3, 4) { "md" } else { "cram" }.to_string();
         let md = format == "md";
         let n = 1 + rng.below(3);
@@ -194,10 +305,14 @@ impl Monitor for C16e {
             tests: (0..n).map(|i| if layered && rng.chance(2, 3) { gen_layer(rng, &format!("t{i}")) } else { Layer::default() }).collect(),
             includes,
             format,
+            mode: String::new(),
         }
     }
 
     fn check(&self, env: &Env, case: &Case) -> Checked {
+        if case.mode == "create" {
+            return check_create(env, case);
+        }
         let md = case.format == "md";
         let inc_layers = case.includes.iter().any(|i| !i.defaults.is_empty() || i.tests.iter().any(|t| !t.is_empty()));
         if !md && (!case.defaults.is_empty() || case.tests.iter().any(|t| !t.is_empty()) || case.doc_timeout_s.is_some() || case.cram_compat || inc_layers) {
@@ -572,6 +687,9 @@ impl Monitor for C16e {
     }
 
     fn sample(&self, case: &Case) -> Value {
+        if case.mode == "create" {
+            return json!({"mode": "create", "format": case.format, "cli": [case.cli_combine, case.cli_crlf]});
+        }
         json!({"format": case.format, "cram_compat": case.cram_compat, "cli": [case.cli_combine, case.cli_crlf, case.cli_timeout_s], "front_matter_total_timeout_s": case.doc_timeout_s,
                "defaults": case.defaults.yaml_inline(), "tests": case.tests.iter().map(|t| t.yaml_inline()).collect::<Vec<_>>(),
                "includes": case.includes.iter().map(|i| json!({"how": i.how, "defaults": i.defaults.yaml_inline(), "tests": i.tests.iter().map(|t| t.yaml_inline()).collect::<Vec<_>>()})).collect::<Vec<_>>()})
